@@ -134,6 +134,15 @@ def decryptAgreedKey (P : Prims) (E : Env) (T : KeyTables) (a : JweAlgRow) (enc 
     let z ← exchangeDeriveKey P E r.key epk
     deriveKeyConcatKdf P z headers enc.cekSize a.keySize none
 
+/-- PBES2: iteration-count check (`1 … 2^31-1`) and PBKDF2 with salt `UTF8(alg) || 0x00 || p2s`
+(`compute_derived_key`, used by both directions). -/
+def pbes2Kek (P : Prims) (a : JweAlgRow) (raw p2s : Bytes) (p2cv : JVal) : Except Err Bytes :=
+  match p2cv with
+  | .int i =>
+    if i < 1 || i ≥ 2147483648 then .error .valueError
+    else P.pbkdf2 a.hash raw (strBytes a.name ++ [0] ++ p2s) i.toNat ((a.keySize.getD 0) / 8)
+  | _ => .error .typeError
+
 /-- `decrypt_recipient(alg, enc, recipient, tag)`: the CEK this recipient yields. -/
 def decryptRecipient (P : Prims) (E : Env) (T : KeyTables) (a : JweAlgRow) (enc : JweEncRow) (headers : Dict)
     (r : Recipient) (tag : Bytes) : Except Err Bytes :=
@@ -172,10 +181,7 @@ def decryptRecipient (P : Prims) (E : Env) (T : KeyTables) (a : JweAlgRow) (enc 
       let p2s ← match p2sv with | .str s => b64d (strBytes s) | _ => .error .typeError
       a.checkKeyType r.key
       r.key.checkKeyOp E.ops "deriveKey"
-      let p2c ← match p2cv with
-        | .int i => if i < 1 || i ≥ 2147483648 then .error .valueError else pure i.toNat
-        | _ => .error .typeError
-      let kek ← P.pbkdf2 a.hash r.key.raw (strBytes a.name ++ [0] ++ p2s) p2c ((a.keySize.getD 0) / 8)
+      let kek ← pbes2Kek P a r.key.raw p2s p2cv
       unwrapWith P a.keySize r.encryptedKey kek
     | _ => .error .runtimeError
 
